@@ -84,7 +84,7 @@ Proof.
     destruct Hob as [id [out [next [-> Ho]]]]. eapply c01_inst_ok; [exact (proj1 HS)|exact Ho].
   - destruct (exec_obs cfg s batch s' ob HS H) as [txns [Ht [[rss [Ee ->]]|[Ee [Hdb ->]]]]]; cbn; rewrite app_nil_r.
     + assert (Hacc : Forall (fun x => sub_accepts (fst x)) txns).
-      { eapply Forall_impl; [|exact Ht]. intros x [t [_ Hx]]. eapply sub_at_accepts; exact Hx. }
+      { eapply Forall_impl; [|exact Ht]. intros x [t [_ [Hx _]]]. eapply sub_at_accepts; exact Hx. }
       destruct (exec_batch_spec _ _ _ _ (proj1 HS) Hacc Ee) as [L [U' _]]. apply c01_exec_ok; assumption.
     + apply c01_exec_ok; [exact (proj1 HS)|apply prom_le_refl].
   - reflexivity.
